@@ -286,7 +286,7 @@ def _pool(tier, seed, fams, nq, nt, rand_kw=None, rq=60, rt=600, prefix="H"):
 def c09_cases(tier, seed):
     rng = _random.Random(seed + 9)
     out = []
-    for cfg in _pool(tier, seed, ["deps", "abs"], 120, 1500, dict(components=False, facilities=False), 80, 800):
+    for cfg in _pool(tier, seed, ["deps", "abs", "due"], 120, 1500, dict(components=False, facilities=False), 80, 800):
         n = len(cfg["tasks"])
         perms = list(itertools.permutations(range(n)))
         if len(perms) > 6:
@@ -299,6 +299,9 @@ def c09_cases(tier, seed):
         ops += [{"op": "simulate", "light": True, "opts": {"absL": [1, 2], "rule": "FIFO", "autoAbs": True, "maxTime": 7}},
                 _cmp({"op": "simulate", "light": True, "defaults": True}, 1, "C09", "lg")]
         ops += [{"op": "backward", "light": True}, _cmp({"op": "simulate", "light": True}, 1, "C09", "lg")]
+        # ... nor may a backward run with helper tasks for due times, reversed or not
+        ops += [{"op": "backward", "due": True, "reverse": rng.random() < 0.5, "light": True},
+                _cmp({"op": "simulate", "light": True}, 1, "C09", "lg")]
         ops += [{"op": "rebuild", "plain": True}, _cmp({"op": "simulate", "light": True}, 1, "C09", "lg")]
         out.append(_hist(cfg, "c09", ops))
         if not cfg["opts"]["absL"] and len(out) % 4 == 0:
@@ -353,6 +356,21 @@ def c15_cases(tier, seed):
                         {"op": "saveload"},
                         _cmp({"op": "simulate", "initState": False, "initLog": False, "light": True}, 1, "C15", "lg")]
             out.append(_hist(cfg, "c15json", ops, plain=True))
+    return out
+
+
+def c10_resume_cases(tier, seed):
+    """Absence steps on both sides of a pause: the continued run (recorded with events) must
+    treat the remaining absence steps as dead time too."""
+    rng = _random.Random(seed + 1010)
+    out = []
+    for cfg in _pool(tier, seed, ["abs", "pairs"], 150, 1500, dict(components=False, facilities=False), 60, 600, prefix="P"):
+        L = cfg["opts"]["absL"] or sorted(set(rng.sample(range(0, 7), rng.randint(2, 3))))
+        ops = []
+        for k in rng.sample(range(1, 7), 2):
+            ops += [{"op": "rebuild"}, {"op": "simulate", "opts": {"maxTime": k, "absL": L}, "light": True},
+                    {"op": "simulate", "opts": {"absL": L}, "initState": False, "initLog": False}]
+        out.append(_hist(cfg, "c10resume", ops))
     return out
 
 
@@ -693,7 +711,7 @@ PLANS["C01"]["cases"] = both(PLANS["C01"]["cases"], c01_edit_cases)
 # edits of the model between two runs: no run may depend on what an earlier run derived
 PLANS["C09"]["cases"] = both(PLANS["C09"]["cases"], c01_edit_cases, c05_edit_cases, c09_retarget_cases)
 # an edited absence calendar is the calendar of the next run
-PLANS["C10"]["cases"] = both(PLANS["C10"]["cases"], c09_retarget_cases)
+PLANS["C10"]["cases"] = both(PLANS["C10"]["cases"], c09_retarget_cases, c10_resume_cases)
 PLANS["C08"]["cases"] = both(PLANS["C08"]["cases"], c08_hist_cases, unit2_cases(),
                                tlc_hist_cases("histC08", ["deps", "placeflat"], 1, 6))
 PLANS["C18"]["cases"] = both(PLANS["C18"]["cases"], tlc_hist_cases("histC18", ["abs", "placeflat"], 1, 6))
